@@ -221,9 +221,17 @@ def int_range_cases():
         max_int_index = 10
         min_int_index = -10
 
-    for env, lo, hi in ((jp.JSONPathEnvironment(), -big + 1, big - 1), (Small(), -10, 10)):
+    class NonNeg(jp.JSONPathEnvironment):
+        min_int_index = 0
+        max_int_index = 5
+
+    class NonPos(jp.JSONPathEnvironment):
+        min_int_index = -5
+        max_int_index = 0
+
+    for env, lo, hi in ((jp.JSONPathEnvironment(), -big + 1, big - 1), (Small(), -10, 10), (NonNeg(), 0, 5), (NonPos(), -5, 0)):
         for x in (lo - 1, lo, lo + 1, -1, 0, 1, hi - 1, hi, hi + 1):
-            for q in (f"$[{x}]", f"$[{x}:]", f"$[:{x}]", f"$[::{x}]", f"$[1,{x}]", f"$..[{x}]", f"$[?@[{x}]]"):
+            for q in (f"$[{x}]", f"$[{x}:]", f"$[:{x}]", f"$[::{x}]", f"$[0,{x}]", f"$..[{x}]", f"$[?@[{x}]]"):
                 n += 1
                 want = lo <= x <= hi
                 try:
@@ -239,6 +247,48 @@ def int_range_cases():
     return n, col.list()
 
 
+def second_registry_cases():
+    """the same function NAMES registered with other result types on a second environment, after the first was used:
+    typing must follow the registry of the environment that compiles (any set of registered functions)"""
+    from jsonpath_rfc9535.function_extensions import ExpressionType as T
+    col = Collector()
+    n = 0
+    env1 = c10.env_factory()
+    rot = {T.VALUE: T.LOGICAL, T.LOGICAL: T.NODES, T.NODES: T.VALUE}
+    env2 = jp.JSONPathEnvironment()
+    reg2 = dict(BUILTIN)
+    tname = {T.VALUE: V, T.LOGICAL: L, T.NODES: N}
+    for name, f in env1.function_extensions.items():
+        if name.startswith("p"):
+            g = c10.make_probe(f.arg_types, rot[f.return_type])
+            env2.function_extensions[name] = g
+            reg2[name] = ([tname[t] for t in f.arg_types], tname[rot[f.return_type]])
+    names = [nm for nm in sorted(reg2) if nm.startswith("pv_") or nm.startswith("p_")]
+    global REG
+    saved = REG
+    try:
+        for nm in names:
+            arg = [("sq", "@.a")] if nm.startswith("pv_") else []
+            call = ("call", nm, arg)
+            for e in (call, ("cmp", call, "==", ("lit", "1")), ("not", call), ("and", call, ("sq", "@.b")), ("par", call)):
+                q = f"$[?{text(e)}]"
+                for env, reg in ((env1, saved), (env2, reg2), (env1, saved)):
+                    REG = reg
+                    n += 1
+                    want = ok_test(e)
+                    try:
+                        env.compile(q)
+                        got = True
+                    except jp.JSONPathError:
+                        got = False
+                    if got != want:
+                        col.add("c05-typing-depends-on-another-registry", "typing judged with another environment's function signatures",
+                                {"query": q, "registry": "second" if reg is reg2 else "first"}, want, got)
+    finally:
+        REG = saved
+    return n, col.list()
+
+
 def run(tier, seed):
     es = expressions(tier)
     parts = pmap(work, chunked(es, 48))
@@ -247,6 +297,9 @@ def run(tier, seed):
         col.merge(p["violations"])
     n2, v2 = int_range_cases()
     col.merge(v2)
+    n3, v3 = second_registry_cases()
+    col.merge(v3)
+    n2 += n3
     return {"evaluations": sum(p["n"] for p in parts) + n2, "distinct_nontrivial": sum(p["nontrivial"] for p in parts),
             "rule": f"function calls of {len(REG)} registered signatures (built-ins + every signature with <= 2 parameters x 3 result types, plus an unknown "
                     "name and wrong arities) with every argument kind (literals, singular / non-singular queries, calls of each result type, comparison, &&, !, "
